@@ -364,8 +364,8 @@ def run_rt(case, stt):
 @st.composite
 def hist_case(draw):
     spec = draw(dd_spec(nmin=8, nmax=40, nchan_max=4))
-    if spec["sshape"][0] % 2 and draw(st.booleans()):
-        spec["sshape"][0] += 1  # even channel counts: alignment matters
+    if spec["sshape"][0] % 2 and spec["sshape"][0] > 1 and draw(st.booleans()):
+        spec["sshape"][0] -= 1  # even channel counts: alignment matters (one channel fewer keeps the band positive)
     dmv, sel = draw(dm_and_ref(spec))
     steps = [draw(st.sampled_from(["align", "align", "dm", "ref", "data", "cf_shift", "same", "dtype", "start"])) for _ in range(draw(st.integers(1, 4)))]
     return {"sig": spec, "dm": dmv, "ref": sel, "steps": steps, "pick": draw(st.integers(0, 10**6))}
